@@ -60,6 +60,8 @@ def run(ctx, model_ok):
     corpus = lib.os.path.join(lib.VERIF, "corpus", "C06.json")
     if lib.os.path.exists(corpus):
         cases += json.load(open(corpus))
+    # the histories of repaired defects (known_findings.json, kind fixed) run first
+    cases += [dict(rp) for rp in getattr(ctx, "fixed_replays", []) if "items" in rp and "cfg" in rp]
     cases += cc.enumerated_cases()
     n += 64
     while len(cases) < n:
